@@ -140,14 +140,64 @@ def run_translator() -> dict:
     import warnings
     warnings.filterwarnings('ignore', category=SyntaxWarning)     # docstrings of the parsed sources
     from translator import tables
-    out = tables.generate(REPO, LEAN / 'Mahotas' / 'Generated')
-    # additive: per-property generators living in their own modules (C11 guards, C12 static objects)
+    gdir = LEAN / 'Mahotas' / 'Generated'
+    out = tables.generate(REPO, gdir)
+    failed, names = out['_failed'], out['_names']
+    # additive: per-property generators living in their own modules (C11 guards, C12 static objects, ...). Each writes
+    # its own file; when its source constructs are no longer recognised the file keeps its last generated text and the
+    # failure is reported under the generator's name (see `generated_failures_for`)
     import importlib
-    for modname in ('guards', 'statics'):
+    for modname, fname in (('guards', 'Guards.lean'), ('statics', 'Statics.lean'), ('cscalar', 'CScalar.lean'),
+                           ('pybody', 'PyBodies.lean')):
         if (VERIF / 'translator' / f'{modname}.py').exists():
             mod = importlib.import_module(f'translator.{modname}')
-            out.update(mod.generate(REPO, LEAN / 'Mahotas' / 'Generated'))
+            try:
+                out.update(mod.generate(REPO, gdir))
+            except Exception as e:  # noqa
+                if not (gdir / fname).exists():
+                    raise
+                failed[modname] = f'{type(e).__name__}: {e}'
+            if (gdir / fname).exists():
+                names[modname] = tables.defined_names((gdir / fname).read_text())
     return out
+
+
+def lean_closure(prop_id: str, extra_targets: list[str] | None = None) -> list[Path]:
+    """the hand-written Lean files a property's theorems and driver model rest on: Properties/<id>.lean, Model/<id>*.lean,
+    the extra targets (foundations), and everything under Mahotas/ they import, transitively; Generated/ files excluded"""
+    roots = [LEAN / 'Mahotas' / 'Properties' / f'{prop_id}.lean']
+    roots += sorted((LEAN / 'Mahotas' / 'Model').glob(f'{prop_id}*.lean'))
+    for t in extra_targets or []:
+        roots.append(LEAN / (t.replace('.', '/') + '.lean'))
+    seen, todo = {}, [r for r in roots if r.exists()]
+    while todo:
+        f = todo.pop()
+        if f in seen:
+            continue
+        txt = f.read_text()
+        seen[f] = txt
+        for m in re.finditer(r'^import\s+(Mahotas\.[\w\.]+)', txt, re.M):
+            q = LEAN / (m.group(1).replace('.', '/') + '.lean')
+            if q.exists() and q not in seen:
+                todo.append(q)
+    return [f for f in seen if 'Generated' not in f.parts]
+
+
+def generated_failures_for(prop_id: str, gen: dict, extra_targets: list[str] | None = None) -> tuple[list[str], list[str]]:
+    """(failures that break this property's tie, failures that do not concern it). A generator block concerns a property
+    when a definition of that block is mentioned (as a word) in the property's Lean closure - a conservative test."""
+    failed = gen.get('_failed') or {}
+    if not failed:
+        return [], []
+    words = set()
+    for f in lean_closure(prop_id, extra_targets):
+        words |= set(re.findall(r'[A-Za-z_][\w]*', strip_comments(f.read_text())))
+    mine, other = [], []
+    for blk, err in sorted(failed.items()):
+        defs = (gen.get('_names') or {}).get(blk) or []
+        hit = sorted(d for d in defs if d.split('.')[-1] in words)
+        (mine if (hit or not defs) else other).append(f'translator[{blk}]: {err}' + (f' (used here: {", ".join(hit[:4])})' if hit else ''))
+    return mine, other
 
 
 def lake_build(targets: list[str]) -> tuple[bool, str]:
@@ -224,8 +274,15 @@ def lean_obligations(prop_id: str, extra_targets: list[str] | None = None, extra
     lk = _lean_lock()
     try:
         try:
-            res['generated'] = run_translator()
-        except Exception as e:  # a construct the translator used to parse is gone: broken tie
+            gen = run_translator()
+            mine, other = generated_failures_for(prop_id, gen, extra_targets)
+            res['generated'] = {k: v for k, v in gen.items() if not k.startswith('_')}
+            if mine:            # a construct the translator used to parse is gone, in a block this property uses: broken tie
+                res['ok'] = False
+                res['problems'] += mine
+            if other:           # blocks no definition of which this property's Lean files mention: recorded, not an alarm here
+                res['generated']['unrelated_translator_failures'] = other
+        except Exception as e:  # nothing could be generated at all
             res['ok'] = False
             res['problems'].append(f'translator: {type(e).__name__}: {e}')
         targets = ['driver']
